@@ -103,7 +103,7 @@ theorem prefix_loop_not_fold :
 
 /-- One (from, to) pair given by printed full paths `sep + sep.join(names)`, in a tree whose
 sibling names are unique; all three separators are the character `c`; `with_full_path=True`;
-no merge flag, no `delete_children`. `fpar ++ [l]` / `tpar ++ [l]` are the from- and to-address
+no merge flag (`delete_children` is a parameter of the statements). `fpar ++ [l]` / `tpar ++ [l]` are the from- and to-address
 below the root (same last name `l`, as `copy_or_shift_logic` requires); `F` is the from-node;
 `k` is the fresh-id counter. -/
 structure PairHyp (cfg : Cfg) (c : Char) (t : Tree) (k : Nat) (fpar tpar : List Str) (l : Str)
@@ -111,7 +111,6 @@ structure PairHyp (cfg : Cfg) (c : Char) (t : Tree) (k : Nat) (fpar tpar : List 
   plain : cfg.Plain c
   mc : cfg.mergeChildren = false
   ml : cfg.mergeLeaves = false
-  dc : cfg.deleteChildren = false
   su : SibUnique t
   fresh : ∀ e ∈ flat t, e.2.1 < k
   gf : GoodNames c (t.name :: fpar ++ [l])
@@ -132,20 +131,21 @@ def call1 (cfg : Cfg) (c : Char) (t : Tree) (k : Nat) (fp tp : List Str) : Excep
 theorem shift_ok {cfg c t k fpar tpar l F} (h : PairHyp cfg c t k fpar tpar l F)
     (hcp : cfg.copy = false) :
     ∃ st', call1 cfg c t k (fpar ++ [l]) (tpar ++ [l]) = .ok st' := by
-  obtain ⟨t', k', hcall, _⟩ := shift_core h.plain hcp h.mc h.ml h.dc t k fpar tpar l F h.su h.fresh
+  obtain ⟨t', k', hcall, _⟩ := shift_core h.plain hcp h.mc h.ml t k fpar tpar l F h.su h.fresh
     h.gf h.gt h.found h.missing h.outside
   exact ⟨_, hcall⟩
 
-/-- `paths' = (paths \ under from) ∪ rebase from to (under from) ∪ prefixes to` -/
-theorem shift_paths {cfg c t k fpar tpar l F} (h : PairHyp cfg c t k fpar tpar l F)
+/-- path set of the result, for both values of `delete_children`: what is attached is the
+from-node (`stripIf false F = F`) or the bare from-node (`stripIf true F`) -/
+theorem shift_paths_gen {cfg c t k fpar tpar l F} (h : PairHyp cfg c t k fpar tpar l F)
     (hcp : cfg.copy = false) {st' : St}
     (hr : call1 cfg c t k (fpar ++ [l]) (tpar ++ [l]) = .ok st') (q : List Str) :
     q ∈ paths st'.dst ↔
       (q ∈ paths t ∧ ¬ (fpar ++ [l]) <+: q) ∨
-      (∃ r, fpar ++ [l] ++ r ∈ paths t ∧ q = tpar ++ [l] ++ r) ∨
+      (∃ r, r ∈ paths (stripIf cfg.deleteChildren F) ∧ q = tpar ++ [l] ++ r) ∨
       q <+: tpar ++ [l] := by
   obtain ⟨t', k', hcall, _, hsu', hmoved, hframe, hmid, hpre⟩ :=
-    shift_core h.plain hcp h.mc h.ml h.dc t k fpar tpar l F h.su h.fresh
+    shift_core h.plain hcp h.mc h.ml t k fpar tpar l F h.su h.fresh
       h.gf h.gt h.found h.missing h.outside
   have hst : st' = st0 t' k' := by
     unfold call1 at hr; rw [hcall] at hr; injection hr with hr; exact hr.symm
@@ -160,7 +160,7 @@ theorem shift_paths {cfg c t k fpar tpar l F} (h : PairHyp cfg c t k fpar tpar l
       have : e ∈ (flat t').filter (under (tpar ++ [l])) := List.mem_filter.2 ⟨he, hue⟩
       rw [hmoved] at this
       obtain ⟨e0, he0, rfl⟩ := List.mem_map.1 this
-      exact ⟨e0.1, (mem_paths_sub h.found h.su).1 (List.mem_map.2 ⟨e0, he0, rfl⟩), rfl⟩
+      exact ⟨e0.1, List.mem_map.2 ⟨e0, he0, rfl⟩, rfl⟩
     | false =>
       by_cases hlt : e.2.1 < k
       · left
@@ -185,14 +185,14 @@ theorem shift_paths {cfg c t k fpar tpar l F} (h : PairHyp cfg c t k fpar tpar l
         | true => exact absurd (List.isPrefixOf_iff_prefix.1 hu) hnp
       rw [← hframe] at this
       exact List.mem_map.2 ⟨e, (List.mem_filter.1 this).1, rfl⟩
-    · have hr2 := (mem_paths_sub h.found h.su).2 hr'
-      obtain ⟨e0, he0, rfl⟩ := List.mem_map.1 hr2
+    · obtain ⟨e0, he0, rfl⟩ := List.mem_map.1 hr'
       have : rebase (tpar ++ [l]) e0 ∈ (flat t').filter (under (tpar ++ [l])) := by
         rw [hmoved]; exact List.mem_map.2 ⟨e0, he0, rfl⟩
       exact List.mem_map.2 ⟨_, (List.mem_filter.1 this).1, rfl⟩
     · by_cases hqe : q = tpar ++ [l]
       · subst hqe
-        have hF0 : ([] : List Str) ∈ paths F := by rw [paths, flat_eq]; simp
+        have hF0 : ([] : List Str) ∈ paths (stripIf cfg.deleteChildren F) := by
+          rw [paths, flat_eq]; simp
         obtain ⟨e0, he0, he0'⟩ := List.mem_map.1 hF0
         have : rebase (tpar ++ [l]) e0 ∈ (flat t').filter (under (tpar ++ [l])) := by
           rw [hmoved]; exact List.mem_map.2 ⟨e0, he0, rfl⟩
@@ -209,14 +209,57 @@ theorem shift_paths {cfg c t k fpar tpar l F} (h : PairHyp cfg c t k fpar tpar l
           have := List.append_inj_left' hs rfl
           exact ⟨xs.reverse, this⟩
 
+/-- `paths' = (paths \ under from) ∪ rebase from to (under from) ∪ prefixes to` -/
+theorem shift_paths {cfg c t k fpar tpar l F} (h : PairHyp cfg c t k fpar tpar l F)
+    (hcp : cfg.copy = false) (hdc : cfg.deleteChildren = false) {st' : St}
+    (hr : call1 cfg c t k (fpar ++ [l]) (tpar ++ [l]) = .ok st') (q : List Str) :
+    q ∈ paths st'.dst ↔
+      (q ∈ paths t ∧ ¬ (fpar ++ [l]) <+: q) ∨
+      (∃ r, fpar ++ [l] ++ r ∈ paths t ∧ q = tpar ++ [l] ++ r) ∨
+      q <+: tpar ++ [l] := by
+  rw [shift_paths_gen h hcp hr q, hdc]
+  simp only [stripIf, Bool.false_eq_true, if_false, mem_paths_sub h.found h.su]
+
+/-- `delete_children=True`: the bare from-node appears at the destination (same object, same
+attributes), its whole old subtree is gone: `paths' = (paths \ under from) ∪ prefixes to` -/
+theorem delete_children_paths {cfg c t k fpar tpar l F} (h : PairHyp cfg c t k fpar tpar l F)
+    (hcp : cfg.copy = false) (hdc : cfg.deleteChildren = true) {st' : St}
+    (hr : call1 cfg c t k (fpar ++ [l]) (tpar ++ [l]) = .ok st') :
+    (∀ q, q ∈ paths st'.dst ↔ (q ∈ paths t ∧ ¬ (fpar ++ [l]) <+: q) ∨ q <+: tpar ++ [l]) ∧
+    (flat st'.dst).filter (under (tpar ++ [l])) = [(tpar ++ [l], F.id, F.attrs)] := by
+  constructor
+  · intro q
+    rw [shift_paths_gen h hcp hr q, hdc]
+    have : paths (stripIf true F) = [[]] := by simp [paths, stripIf, flat_setKids_nil]
+    rw [this]
+    constructor
+    · rintro (h1 | ⟨r, hr', rfl⟩ | h1)
+      · exact Or.inl h1
+      · simp at hr'; subst hr'; exact Or.inr (by simp)
+      · exact Or.inr h1
+    · rintro (h1 | h1)
+      · exact Or.inl h1
+      · exact Or.inr (Or.inr h1)
+  · obtain ⟨t', k', hcall, _, _, hmoved, _⟩ :=
+      shift_core h.plain hcp h.mc h.ml t k fpar tpar l F h.su h.fresh
+        h.gf h.gt h.found h.missing h.outside
+    have hst : st' = st0 t' k' := by
+      unfold call1 at hr; rw [hcall] at hr; injection hr with hr; exact hr.symm
+    subst hst
+    show (flat t').filter _ = _
+    rw [hmoved, hdc]
+    simp [stripIf, flat_setKids_nil, rebase]
+
 /-- moved nodes keep their ids — and their attributes, relative paths and order: the entries
-below the destination are exactly the entries of the from-node, re-rooted -/
+below the destination are exactly the entries of the from-node, re-rooted (`stripIf false F = F`;
+with `delete_children` only the from-node itself) -/
 theorem shift_keeps_ids {cfg c t k fpar tpar l F} (h : PairHyp cfg c t k fpar tpar l F)
     (hcp : cfg.copy = false) {st' : St}
     (hr : call1 cfg c t k (fpar ++ [l]) (tpar ++ [l]) = .ok st') :
-    (flat st'.dst).filter (under (tpar ++ [l])) = (flat F).map (rebase (tpar ++ [l])) := by
+    (flat st'.dst).filter (under (tpar ++ [l]))
+      = (flat (stripIf cfg.deleteChildren F)).map (rebase (tpar ++ [l])) := by
   obtain ⟨t', k', hcall, _, _, hmoved, _⟩ :=
-    shift_core h.plain hcp h.mc h.ml h.dc t k fpar tpar l F h.su h.fresh
+    shift_core h.plain hcp h.mc h.ml t k fpar tpar l F h.su h.fresh
       h.gf h.gt h.found h.missing h.outside
   have hst : st' = st0 t' k' := by
     unfold call1 at hr; rw [hcall] at hr; injection hr with hr; exact hr.symm
@@ -235,7 +278,7 @@ theorem shift_frame {cfg c t k fpar tpar l F} (h : PairHyp cfg c t k fpar tpar l
     (∀ e ∈ flat st'.dst, ¬ e.2.1 < k → e.1 <+: tpar ∧ e.2.1 < st'.next ∧ e.2.2 = []) ∧
     st'.src = none ∧ SibUnique st'.dst := by
   obtain ⟨t', k', hcall, _, hsu', _, hframe, hmid, _⟩ :=
-    shift_core h.plain hcp h.mc h.ml h.dc t k fpar tpar l F h.su h.fresh
+    shift_core h.plain hcp h.mc h.ml t k fpar tpar l F h.su h.fresh
       h.gf h.gt h.found h.missing h.outside
   have hst : st' = st0 t' k' := by
     unfold call1 at hr; rw [hcall] at hr; injection hr with hr; exact hr.symm
@@ -258,7 +301,6 @@ example : PairHyp (cfgOf false false false false false false true) '/' exTree 5 
   plain := ⟨rfl, rfl, rfl, rfl⟩
   mc := rfl
   ml := rfl
-  dc := rfl
   su := by decide +kernel
   fresh := by decide +kernel
   gf := by decide +kernel
@@ -277,7 +319,7 @@ example : call1 (cfgOf false false false false false false true) '/' exTree 5 [[
 theorem copy_ok {cfg c t k fpar tpar l F} (h : PairHyp cfg c t k fpar tpar l F)
     (hcp : cfg.copy = true) :
     ∃ st', call1 cfg c t k (fpar ++ [l]) (tpar ++ [l]) = .ok st' := by
-  obtain ⟨t', k', hcall, _⟩ := copy_core h.plain hcp h.mc h.ml h.dc none t k fpar tpar l F h.su h.su
+  obtain ⟨t', k', hcall, _⟩ := copy_core h.plain hcp h.mc h.ml none t k fpar tpar l F h.su h.su
     h.fresh h.gf h.gt h.found h.missing (fun _ => h.outside)
   exact ⟨_, hcall⟩
 
@@ -287,14 +329,14 @@ theorem copy_facts {cfg c t k fpar tpar l F} (h : PairHyp cfg c t k fpar tpar l 
     (hr : call1 cfg c t k (fpar ++ [l]) (tpar ++ [l]) = .ok st') :
     st'.src = none ∧ k ≤ st'.next ∧ SibUnique st'.dst ∧
     shape ((flat st'.dst).filter (under (tpar ++ [l])))
-        = (shape (flat F)).map (fun x => (tpar ++ [l] ++ x.1, x.2)) ∧
+        = (shape (flat (stripIf cfg.deleteChildren F))).map (fun x => (tpar ++ [l] ++ x.1, x.2)) ∧
     (∀ e ∈ (flat st'.dst).filter (under (tpar ++ [l])), k ≤ e.2.1 ∧ e.2.1 < st'.next) ∧
     (flat st'.dst).filter (fun e => decide (e.2.1 < k)) = flat t ∧
     (∀ e ∈ flat st'.dst, ¬ e.2.1 < k → under (tpar ++ [l]) e = false →
         e.1.isPrefixOf tpar = true ∧ e.2.1 < st'.next ∧ e.2.2 = []) ∧
     (∀ q, q.isPrefixOf tpar = true → q ∈ paths st'.dst) := by
   obtain ⟨t', k', hcall, h1, h2, h3, h4, h5, h6, h7⟩ :=
-    copy_core h.plain hcp h.mc h.ml h.dc none t k fpar tpar l F h.su h.su
+    copy_core h.plain hcp h.mc h.ml none t k fpar tpar l F h.su h.su
       h.fresh h.gf h.gt h.found h.missing (fun _ => h.outside)
   have hst : st' = ⟨none, t', k'⟩ := by
     unfold call1 at hr
@@ -306,11 +348,13 @@ theorem copy_facts {cfg c t k fpar tpar l F} (h : PairHyp cfg c t k fpar tpar l 
 
 /-- `paths' = paths ∪ rebase from to (under from) ∪ prefixes to` -/
 theorem copy_paths {cfg c t k fpar tpar l F} (h : PairHyp cfg c t k fpar tpar l F)
-    (hcp : cfg.copy = true) {st' : St}
+    (hcp : cfg.copy = true) (hdc : cfg.deleteChildren = false) {st' : St}
     (hr : call1 cfg c t k (fpar ++ [l]) (tpar ++ [l]) = .ok st') (q : List Str) :
     q ∈ paths st'.dst ↔
       q ∈ paths t ∨ (∃ r, fpar ++ [l] ++ r ∈ paths t ∧ q = tpar ++ [l] ++ r) ∨ q <+: tpar ++ [l] := by
   obtain ⟨_, _, _, hshape, _, hold, hmid, hpre⟩ := copy_facts h hcp hr
+  rw [hdc] at hshape
+  simp only [stripIf, Bool.false_eq_true, if_false] at hshape
   have hsh : ∀ r, (tpar ++ [l] ++ r ∈ paths st'.dst) ↔ r ∈ paths F := by
     intro r
     have key : ((flat st'.dst).filter (under (tpar ++ [l]))).map (·.1)
@@ -371,13 +415,13 @@ theorem copy_paths {cfg c t k fpar tpar l F} (h : PairHyp cfg c t k fpar tpar l 
           exact ⟨xs.reverse, List.append_inj_left' hs rfl⟩
 
 /-- the copy consists of fresh objects (ids from the counter on) and has the origin's relative
-paths, attributes and order -/
+paths, attributes and order (with `delete_children`: of the bare origin node) -/
 theorem copy_fresh_ids {cfg c t k fpar tpar l F} (h : PairHyp cfg c t k fpar tpar l F)
     (hcp : cfg.copy = true) {st' : St}
     (hr : call1 cfg c t k (fpar ++ [l]) (tpar ++ [l]) = .ok st') :
     (∀ e ∈ (flat st'.dst).filter (under (tpar ++ [l])), k ≤ e.2.1 ∧ e.2.1 < st'.next ∧ e.2.1 ∉ ids t) ∧
     shape ((flat st'.dst).filter (under (tpar ++ [l])))
-        = (shape (flat F)).map (fun x => (tpar ++ [l] ++ x.1, x.2)) := by
+        = (shape (flat (stripIf cfg.deleteChildren F))).map (fun x => (tpar ++ [l] ++ x.1, x.2)) := by
   obtain ⟨_, _, _, hshape, hids, _, _, _⟩ := copy_facts h hcp hr
   refine ⟨fun e he => ⟨(hids e he).1, (hids e he).2, ?_⟩, hshape⟩
   intro hmem
@@ -446,7 +490,6 @@ example : PairHyp (cfgOf true false false false false false true) '/' exTree 5 [
   plain := ⟨rfl, rfl, rfl, rfl⟩
   mc := rfl
   ml := rfl
-  dc := rfl
   su := by decide +kernel
   fresh := by decide +kernel
   gf := by decide +kernel
@@ -497,7 +540,8 @@ theorem t2t_copy {cfg : Cfg} {c : Char} (hc : cfg.Plain c) (hcp : cfg.copy = tru
       (∀ e ∈ (flat t').filter (under (tpar ++ [l])), k ≤ e.2.1 ∧ e.2.1 < k') ∧
       (flat t').filter (fun e => decide (e.2.1 < k)) = flat t := by
   obtain ⟨t', k', hcall, _, _, h3, h4, h5, _, _⟩ :=
-    copy_core hc hcp hmc hml hdc (some s) t k fpar tpar l F hu hus hk hgf hgt hF hD (by simp)
+    copy_core hc hcp hmc hml (some s) t k fpar tpar l F hu hus hk hgf hgt hF hD (by simp)
+  rw [hdc] at h3
   exact ⟨t', k', hcall, h3, h4, h5⟩
 
 example : copyOrShift (cfgOf true false false false false false true)
@@ -533,6 +577,114 @@ theorem delete_paths {cfg : Cfg} {c : Char} (hc : cfg.Plain c) (hcp : cfg.copy =
 example : copyOrShift (cfgOf false false false false false false true) (st0 exTree 5)
       [(pathStr '/' ['r'] [['a'], ['x']], none)]
     = .ok (st0 (.node 0 ['r'] [] [.node 1 ['a'] [] [.node 3 ['y'] [] []], .node 4 ['b'] [] []]) 5) := by
+  decide +kernel
+
+
+/-! ## overriding an existing destination -/
+
+/-- as `PairHyp`, but the destination exists (node `D`) and `overriding=True`; neither of the two
+nodes lies inside the other -/
+structure OverHyp (cfg : Cfg) (c : Char) (t : Tree) (fpar tpar : List Str) (l : Str)
+    (F D : Tree) : Prop where
+  plain : cfg.Plain c
+  mc : cfg.mergeChildren = false
+  ml : cfg.mergeLeaves = false
+  ov : cfg.overriding = true
+  su : SibUnique t
+  gf : GoodNames c (t.name :: fpar ++ [l])
+  gt : GoodNames c (t.name :: tpar ++ [l])
+  found : getRel (fpar ++ [l]) t = some F
+  dest : getRel (tpar ++ [l]) t = some D
+  out1 : (fpar ++ [l]).isPrefixOf (tpar ++ [l]) = false
+  out2 : (tpar ++ [l]).isPrefixOf (fpar ++ [l]) = false
+
+/-- `overriding=True`: the old destination subtree is gone, the from-node (same objects) stands
+in its place, everything else is untouched and no object is created:
+`flat' = (flat \ under to \ under from)` in the old order, plus the from-node's entries re-rooted
+at `to`. -/
+theorem overriding_paths {cfg c t k fpar tpar l F D} (h : OverHyp cfg c t fpar tpar l F D)
+    (hcp : cfg.copy = false) :
+    ∃ t', call1 cfg c t k (fpar ++ [l]) (tpar ++ [l]) = .ok (st0 t' k) ∧ SibUnique t' ∧
+      (flat t').filter (under (tpar ++ [l]))
+        = (flat (stripIf cfg.deleteChildren F)).map (rebase (tpar ++ [l])) ∧
+      (flat t').filter (fun e => !under (tpar ++ [l]) e)
+        = (flat t).filter (fun e => !under (tpar ++ [l]) e && !under (fpar ++ [l]) e) ∧
+      (∀ q, q ∈ paths t' ↔
+        (q ∈ paths t ∧ ¬ (tpar ++ [l]) <+: q ∧ ¬ (fpar ++ [l]) <+: q) ∨
+        (∃ r, r ∈ paths (stripIf cfg.deleteChildren F) ∧ q = tpar ++ [l] ++ r)) := by
+  obtain ⟨t', hcall, hsu', hmoved, hrest⟩ :=
+    over_core h.plain hcp h.mc h.ml h.ov t k fpar tpar l F D h.su h.gf h.gt h.found h.dest h.out1 h.out2
+  refine ⟨t', hcall, hsu', hmoved, hrest, fun q => ?_⟩
+  constructor
+  · intro hq
+    obtain ⟨e, he, rfl⟩ := List.mem_map.1 hq
+    cases hue : under (tpar ++ [l]) e with
+    | true =>
+      right
+      have : e ∈ (flat t').filter (under (tpar ++ [l])) := List.mem_filter.2 ⟨he, hue⟩
+      rw [hmoved] at this
+      obtain ⟨e0, he0, rfl⟩ := List.mem_map.1 this
+      exact ⟨e0.1, List.mem_map.2 ⟨e0, he0, rfl⟩, rfl⟩
+    | false =>
+      left
+      have : e ∈ (flat t').filter (fun e => !under (tpar ++ [l]) e) :=
+        List.mem_filter.2 ⟨he, by simp [hue]⟩
+      rw [hrest] at this
+      obtain ⟨h1, h2⟩ := List.mem_filter.1 this
+      simp only [Bool.and_eq_true, Bool.not_eq_true'] at h2
+      refine ⟨List.mem_map.2 ⟨e, h1, rfl⟩, fun hp => ?_, fun hp => ?_⟩
+      · have := List.isPrefixOf_iff_prefix.2 hp
+        simp only [under] at h2; rw [this] at h2; cases h2.1
+      · have := List.isPrefixOf_iff_prefix.2 hp
+        simp only [under] at h2; rw [this] at h2; cases h2.2
+  · rintro (⟨hq, hn1, hn2⟩ | ⟨r, hr', rfl⟩)
+    · obtain ⟨e, he, rfl⟩ := List.mem_map.1 hq
+      have : e ∈ (flat t).filter (fun e => !under (tpar ++ [l]) e && !under (fpar ++ [l]) e) := by
+        refine List.mem_filter.2 ⟨he, ?_⟩
+        have a1 : under (tpar ++ [l]) e = false := by
+          cases hu : under (tpar ++ [l]) e with
+          | false => rfl
+          | true => exact absurd (List.isPrefixOf_iff_prefix.1 hu) hn1
+        have a2 : under (fpar ++ [l]) e = false := by
+          cases hu : under (fpar ++ [l]) e with
+          | false => rfl
+          | true => exact absurd (List.isPrefixOf_iff_prefix.1 hu) hn2
+        simp [a1, a2]
+      rw [← hrest] at this
+      exact List.mem_map.2 ⟨e, (List.mem_filter.1 this).1, rfl⟩
+    · obtain ⟨e0, he0, rfl⟩ := List.mem_map.1 hr'
+      have : rebase (tpar ++ [l]) e0 ∈ (flat t').filter (under (tpar ++ [l])) := by
+        rw [hmoved]; exact List.mem_map.2 ⟨e0, he0, rfl⟩
+      exact List.mem_map.2 ⟨_, (List.mem_filter.1 this).1, rfl⟩
+
+/-- `r(a(x, y), b(a(z)))`: shifting `/r/a` onto the existing `/r/b/a` with `overriding` -/
+def exTree2 : Tree :=
+  .node 0 ['r'] [] [.node 1 ['a'] [] [.node 2 ['x'] [] [], .node 3 ['y'] [] []],
+                    .node 4 ['b'] [] [.node 5 ['a'] [] [.node 6 ['z'] [] []]]]
+
+example : OverHyp (cfgOf false false true false false false true) '/' exTree2 [] [['b']] ['a']
+    (.node 1 ['a'] [] [.node 2 ['x'] [] [], .node 3 ['y'] [] []])
+    (.node 5 ['a'] [] [.node 6 ['z'] [] []]) where
+  plain := ⟨rfl, rfl, rfl, rfl⟩
+  mc := rfl
+  ml := rfl
+  ov := rfl
+  su := by decide +kernel
+  gf := by decide +kernel
+  gt := by decide +kernel
+  found := by decide +kernel
+  dest := by decide +kernel
+  out1 := by decide +kernel
+  out2 := by decide +kernel
+
+example : call1 (cfgOf false false true false false false true) '/' exTree2 7 [['a']] [['b'], ['a']]
+    = .ok (st0 (.node 0 ['r'] [] [.node 4 ['b'] [] [.node 1 ['a'] [] [
+        .node 2 ['x'] [] [], .node 3 ['y'] [] []]]]) 7) := by
+  decide +kernel
+
+/-- `delete_children` on the example of `PairHyp`: only the bare node arrives -/
+example : call1 (cfgOf false false false false false true true) '/' exTree 5 [['a']] [['b'], ['n'], ['a']]
+    = .ok (st0 (.node 0 ['r'] [] [.node 4 ['b'] [] [.node 5 ['n'] [] [.node 1 ['a'] [] []]]]) 6) := by
   decide +kernel
 
 end C08
